@@ -980,10 +980,10 @@ pub fn cases(tier: Tier) -> Vec<Case> {
         add("bool", "BOOLEAN", "", "FALSE".into(), Val::Bool(false), "false".into());
         add("null", "NULL", "", "NULL".into(), Val::Null, "null".into());
         // ---- time values (every X.680 47 / 46 form of the string)
-        for v in ["990102030405Z", "9901020304Z", "990102030405+0100", "9901020304-0530", "000229235959Z"] {
+        for v in ["990102030405Z", "9901020304Z", "990102030405+0100", "9901020304-0530", "000229235959Z", "500101000000Z", "491231235959Z", "5001010000Z"] {
             add("time", "UTCTime", "", format!("\"{v}\""), Val::Str(v.to_string()), format!("utc:{}", if v.len() == 13 && v.ends_with('Z') { "canonical" } else if v.ends_with('Z') { "no-seconds" } else { "offset" }));
         }
-        for v in ["19990102030405Z", "19990102030405.5Z", "19990102030405.125Z", "199901020304Z", "1999010203Z", "19990102030405", "19990102030405+0100", "19990102030405,5Z", "20000229235959.999Z"] {
+        for v in ["19990102030405Z", "19990102030405.5Z", "19990102030405.125Z", "199901020304Z", "1999010203Z", "19990102030405", "19990102030405+0100", "19990102030405,5Z", "20000229235959.999Z", "19990102030405+01", "1999010203-0530", "19990102030405.50Z"] {
             add("time", "GeneralizedTime", "", format!("\"{v}\""), Val::Str(v.to_string()), format!("generalized:{}", if !v.ends_with('Z') && !v.contains('+') { "local" } else if v.contains('+') { "offset" } else if v.contains(',') { "comma-fraction" } else if v.contains('.') { "fraction" } else if v.len() == 15 { "canonical" } else { "short" }));
         }
         // ---- enumerals
